@@ -539,6 +539,10 @@ def int_binop(E, op, a, b):
                     return r
         raise Unsupported("symbolic power")
     if op is ast.Div:
+        if isinstance(b, int) and not isinstance(a, int):
+            if b == 0:
+                E.raise_(ZeroDivisionError, implicit="div0")
+            return SQuot(zint(a), b)
         raise Unsupported("true division on symbolic ints")
     raise Unsupported("int op %s" % op.__name__)
 
@@ -609,7 +613,8 @@ def binop(E, op, a, b, inplace=False):
         raise Unsupported("float arithmetic with symbolic operand")
     x = E.as_int(a)
     y = E.as_int(b)
-    return wrap_int(int_binop(E, op, x, y))
+    r = int_binop(E, op, x, y)
+    return r if isinstance(r, SQuot) else wrap_int(r)
 
 
 _PYOP = {ast.Add: lambda a, b: a + b, ast.Sub: lambda a, b: a - b, ast.Mult: lambda a, b: a * b,
@@ -1317,6 +1322,18 @@ def m_int(E, v=0, base=None):
         v = E.deopt(v)
     if hasattr(v, "pyvc_int"):
         return v.pyvc_int(E)
+    if isinstance(v, SQuot):
+        # int(a / b): the quotient is a correctly rounded double, then truncated toward zero.  For |a| < 2^52 the truncation of the
+        # rounded quotient equals the truncation of the exact one; beyond that the double may be off by up to |a| * 2^-52 (over-approximated)
+        a, b = v.a, v.b
+        absa = z3.If(a < 0, -a, a)
+        absb = abs(b)
+        exact = absa / absb
+        trunc = z3.If((a >= 0) == (b > 0), exact, -exact)
+        q = E.fresh_int("fdiv")
+        slack = absa / (1 << 52) + 1
+        E.assume(z3.If(absa < (1 << 52), q == trunc, z3.And(q >= trunc - slack, q <= trunc + slack)))
+        return SInt(q)
     if isinstance(v, bool):
         return int(v)
     if isinstance(v, (int, SInt)):
